@@ -375,6 +375,32 @@ fn main() {
                     if let Some(v) = check(Op::Round, &xb, &x, target, default_mode) {
                         run.report(v);
                     }
+                    // truncating re-scale and the by-reference form drop the same digits
+                    t.transitions += 2;
+                    if let Some(v) = check(Op::WithScale, &xb, &x, target, Mode::Down) {
+                        run.report(v);
+                    }
+                    if let Some(v) = check(Op::RefToOwnedWithScale, &xb, &x, target, Mode::Down) {
+                        run.report(v);
+                    }
+                }
+            }
+        }
+        // the smallest and largest values of each length (10..0, 10..01, 9..9) cut down to their LEADING digit: the
+        // place where a digit-count bound derived from the bit length is tight
+        for digits in [format!("1{}", "0".repeat(l)), format!("1{}1", "0".repeat(l - 1)), "9".repeat(l + 1)] {
+            for sign in [1, -1] {
+                let x = Dec { n: big(&digits) * sign, s: 2 };
+                let xb = bd(&x);
+                t.states += 1;
+                for target in [2 - l as i64, 1 - l as i64] {
+                    t.transitions += 3;
+                    t.nontrivial += 1;
+                    for (op, m) in [(Op::WithScale, Mode::Down), (Op::RefToOwnedWithScale, Mode::Down), (Op::WithScaleRound, Mode::HalfEven)] {
+                        if let Some(v) = check(op, &xb, &x, target, m) {
+                            run.report(v);
+                        }
+                    }
                 }
             }
         }
